@@ -223,3 +223,46 @@ func VH_C14_concurrent_op() {
 	}
 	vndAssert(len(s.written) >= 1 && vhEqualBytes(s.written[0], a.req.Bytes()), "request frames are not interleaved on the wire")
 }
+
+// VH_C14_race: two goroutines share one client and each carries out one operation on it (Close, Connect, Do). The
+// executor runs them one after the other (first A then B) with happens-before race detection switched on: every
+// access the code under test makes to memory is stamped with the goroutine's vector clock, and only the
+// synchronisation the code itself performs (its mutex, atomics, channels) orders accesses of different goroutines.
+// Two conflicting accesses that nothing orders are a data race in some real schedule, whichever goroutine the
+// executor happened to run first. Natively the tape is replayed with real goroutines under the Go race detector.
+func VH_C14_race() {
+	mode := vndParam("mode") // 0 TCP, 1 RTU network client, 2 serial client
+	opA, opB := vndParam("opa"), vndParam("opb")
+	a := vhMakeExchange(2, mode, 1, false)
+	b := vhMakeExchange(2, mode, 1, false)
+	stream := append(append([]byte{}, a.reply...), b.reply...)
+	s := &vhScript{reply: stream, cuts: []int{len(a.reply), len(stream)}, pauses: []bool{false, false}, paused: []bool{false, false}}
+	if f := vndParam("fault"); f != 0 {
+		s = &vhScript{reply: a.reply, fault: f} // the transport fails before any reply byte arrives (error paths of Do)
+	}
+	c := vhNewClient(mode, s, vndParam("hooks") == 1)
+	run := func(op int, x vhExchange) {
+		defer func() { recover() }()
+		switch op {
+		case 0:
+			if c.serial != nil {
+				c.serial.Close()
+			} else {
+				c.net.Close()
+			}
+		case 1:
+			if c.net != nil {
+				c.net.Connect(c.ctx, "again")
+			}
+		default:
+			c.do(x.req)
+		}
+	}
+	vndRaceDetect()
+	go run(opA, a)
+	vndSettle()
+	go run(opB, b)
+	vndSettle()
+	vndCover("raced")
+	vndRaceCheck()
+}
